@@ -37,16 +37,6 @@ impl MemoryFS {
             handle: Arc::new(RwLock::new(MemoryFsImpl::new())),
         }
     }
-
-    fn ensure_has_parent(&self, path: &str) -> VfsResult<()> {
-        let separator = path.rfind('/');
-        if let Some(index) = separator {
-            if self.exists(&path[..index])? {
-                return Ok(());
-            }
-        }
-        Err(VfsErrorKind::Other("Parent path does not exist".into()).into())
-    }
 }
 
 impl Default for MemoryFS {
@@ -191,8 +181,9 @@ impl FileSystem for MemoryFS {
             // the root directory always exists
             return Err(VfsErrorKind::DirectoryExists.into());
         }
-        self.ensure_has_parent(path)?;
-        let map = &mut self.handle.write().unwrap().files;
+        let mut handle = self.handle.write().unwrap();
+        handle.ensure_has_parent(path)?;
+        let map = &mut handle.files;
         let entry = map.entry(path.to_string());
         match entry {
             Entry::Occupied(file) => {
@@ -218,11 +209,13 @@ impl FileSystem for MemoryFS {
     }
 
     fn open_file(&self, path: &str) -> VfsResult<Box<dyn SeekAndRead + Send>> {
-        self.set_access_time(path, SystemTime::now())?;
-
-        let handle = self.handle.read().unwrap();
-        let file = handle.files.get(path).ok_or(VfsErrorKind::FileNotFound)?;
+        let mut handle = self.handle.write().unwrap();
+        let file = handle
+            .files
+            .get_mut(path)
+            .ok_or(VfsErrorKind::FileNotFound)?;
         ensure_file(file)?;
+        file.accessed = Some(SystemTime::now());
         Ok(Box::new(ReadableFile {
             content: file.content.clone(),
             position: 0,
@@ -230,9 +223,9 @@ impl FileSystem for MemoryFS {
     }
 
     fn create_file(&self, path: &str) -> VfsResult<Box<dyn SeekAndWrite + Send>> {
-        self.ensure_has_parent(path)?;
         let content = Arc::new(Vec::<u8>::new());
         let mut handle = self.handle.write().unwrap();
+        handle.ensure_has_parent(path)?;
         if let Some(existing) = handle.files.get(path) {
             ensure_file(existing)?;
         }
@@ -325,14 +318,13 @@ impl FileSystem for MemoryFS {
     }
 
     fn remove_dir(&self, path: &str) -> VfsResult<()> {
-        if self.read_dir(path)?.next().is_some() {
+        let mut handle = self.handle.write().unwrap();
+        let file = handle.files.get(path).ok_or(VfsErrorKind::FileNotFound)?;
+        ensure_dir(file)?;
+        if handle.has_children(path) {
             return Err(VfsErrorKind::Other("Directory to remove is not empty".into()).into());
         }
-        let mut handle = self.handle.write().unwrap();
-        handle
-            .files
-            .remove(path)
-            .ok_or(VfsErrorKind::FileNotFound)?;
+        handle.files.remove(path);
         Ok(())
     }
 }
@@ -342,6 +334,25 @@ struct MemoryFsImpl {
 }
 
 impl MemoryFsImpl {
+    /// The parent of `path` must be an existing directory. Checked on the locked state, so
+    /// that no other thread can remove the parent between the check and the insertion.
+    fn ensure_has_parent(&self, path: &str) -> VfsResult<()> {
+        let separator = path.rfind('/');
+        if let Some(index) = separator {
+            if let Some(parent) = self.files.get(&path[..index]) {
+                if parent.file_type == VfsFileType::Directory {
+                    return Ok(());
+                }
+            }
+        }
+        Err(VfsErrorKind::Other("Parent path does not exist".into()).into())
+    }
+
+    fn has_children(&self, path: &str) -> bool {
+        let prefix = format!("{}/", path);
+        self.files.keys().any(|key| key.starts_with(&prefix))
+    }
+
     pub fn new() -> Self {
         let mut files = HashMap::new();
         // Add root directory
